@@ -179,3 +179,8 @@ Proof. exact table_has_the_access_operations. Qed.
 
 Example three_gated_overloads : Nat.leb 3 (length (filter p_gated payloads)) = true.
 Proof. exact gated_payload_count. Qed.
+
+Example yaqlized_overloads_in_table :
+  has_gated_fn [35; 105; 110; 100; 101; 120; 101; 114]%Z = true /\                      (* #indexer *)
+  has_gated_fn [35; 111; 112; 101; 114; 97; 116; 111; 114; 95; 46]%Z = true.            (* #operator_. *)
+Proof. exact yaqlized_overloads_listed. Qed.
